@@ -58,7 +58,8 @@ def _has_quantifier(fs):
     """Only selects the solver strategy (never a verdict); top-level formulas are cached by AST id."""
     for top in fs:
         key = top.get_id()
-        hit = _QCACHE.get(key)
+        ent = _QCACHE.get(key)
+        hit = ent[1] if ent is not None else None
         if hit is None:
             hit = False
             seen = set()
@@ -72,7 +73,9 @@ def _has_quantifier(fs):
                     hit = True
                     break
                 todo.extend(f.children())
-            _QCACHE[key] = hit
+            if len(_QCACHE) > 300000:
+                _QCACHE.clear()
+            _QCACHE[key] = (top, hit)     # keeps the term alive: z3 re-uses the ids of freed terms
         if hit:
             return True
     return False
